@@ -30,9 +30,14 @@ def parseOp : List String → Option Op
   | ["stop", e, r] => match e.toNat?, r.toNat? with
     | some e, some r => some (.stop e r)
     | _, _ => none
+  | ["restart"] => some .restart
+  | ["crash"] => some .crash
   | _ => none
 
 /-- ops:  `register <e>` | `disconnect <e>` | `start <e> <run ordinal>` | `stop <e> <run ordinal>`   (repaired code)
+          `restart` | `crash`   the aggregator process ends with / without shutdown(), a new one works on the database
+          `contribute <e> <user>`   a user's command for engine e (EngineData.contributors): not part of the model
+                                    state — contributors only fill a column of the rows — so the state is unchanged
           the same prefixed with `asis` + tab: the code before fixes/C30-one-record-per-run.diff
     answer: reply kind; registered flag and active run of engines 0 and 1; PlotLogs and RecentRuns rows as
     `engine:run` in insertion order -/
@@ -42,6 +47,10 @@ def step (s : State) (line : String) : State × String :=
     match parseOp rest with
     | some op => let (s', r) := OPM.RunRecords.step false s op; (s', showState s' r)
     | none => (s, "bad-op")
+  | ["contribute", e, u] =>
+    match e.toNat?, u.toNat? with
+    | some _, some _ => (s, showState s .ok)
+    | _, _ => (s, "bad-op")
   | fs =>
     match parseOp fs with
     | some op => let (s', r) := OPM.RunRecords.step true s op; (s', showState s' r)
